@@ -151,7 +151,8 @@ def render_steps(doc, table, cover, n, first_types=("given", "when", "then"), pr
             content = [l for l in (rnd.choice(DOC_LINES) for _ in range(rnd.randint(0, 4))) if not l.strip().startswith(q)]
             for l in content:
                 doc.raw(col + l if l else rnd.choice(["", col]))
-            doc.raw(col + q + rnd.choice(["", "  "]))
+            # the closing delimiter may stand at any column, whatever the column of the opening one
+            doc.raw(rnd.choice([col, col, "", "  ", col + "   ", "\t"]) + q + rnd.choice(["", "  "]))
             st["text"] = ["\n".join(l.rstrip() for l in content), start]
         elif r < 0.4:
             st["table"] = render_table(doc, rnd.randint(1, 3), rnd.randint(0, 3))
